@@ -456,11 +456,10 @@ func expandGlob(root, pattern string) ([]string, error) {
 	var matches []string
 	ignoreHiddenGlobFn := func(path string, d fs.DirEntry) error {
 		if strings.HasPrefix(path, ".") {
-			// Only a directory may be skipped, returning SkipDir for a file
-			// would skip the rest of the directory it lives in
-			if d.IsDir() {
-				return filepath.SkipDir
-			}
+			// Hidden entries (and "." itself, which a bare ** matches) are simply not recorded.
+			// SkipDir must not be returned here: unless doublestar is in the middle of a ** walk
+			// it stops listing the current directory on SkipDir, even when the entry is a
+			// directory, so everything listed after a hidden entry would go missing
 			return nil
 		}
 
